@@ -33,7 +33,7 @@ def check(res):
         "evaluations": len(lines), "distinct_nontrivial": len(set(lines)),
         "rule": "every derived operation named by the property evaluated next to its definition on every zoo node of the relevant kind plus "
                 "blocks with 0/1/3 handlers, products/sums/expression lists/parameter lists of length 0/1/7, parameters with and without "
-                "initializer; begin/end/position/iteration on every sequence; == and != on all pairs of 7 logograms, 9 linkages, 8 conventions, "
+                "initializer; begin/end/position/iteration on every sequence, and iterators at equal positions of up to 6 earlier sequences of the same element type compared with == and !=; == and != on all pairs of 7 logograms, 9 linkages, 8 conventions, "
                 "73 transfers and 5 basic specifiers against spelling equality",
         "samples": [lines[0], lines[len(lines) // 2], lines[-1]],
         "traces_validated_against_impl": len(lines),
